@@ -340,7 +340,7 @@ func (c *ctx) factsSites(repo string) {
 						if tv, ok := p.TypesInfo.Types[x.X]; ok {
 							if _, isMap := tv.Type.Underlying().(*types.Map); isMap {
 								nRange++
-								ranges = append(ranges, fmt.Sprintf("%s.%s#%d:%s", short, fn, nRange, exprString(p, x.X)))
+								ranges = append(ranges, fmt.Sprintf("%s.%s#%d:%s|%s", short, fn, nRange, exprString(p, x.X), classifyRange(p, fd, x)))
 							}
 						}
 					case *ast.CallExpr:
@@ -383,4 +383,79 @@ func quoteAll(xs []string) []string {
 		ys[i] = q(x)
 	}
 	return ys
+}
+
+
+// classifyRange summarises what the body of a range-over-map loop does, so that the order-sensitivity
+// review in the Lean model (Gv.Props.C09) is re-checked when a loop changes:
+//   append:<slice>[,sorted]  elements are collected into a slice (which the function sorts afterwards)
+//   insert                   writes into a map / set (m[k] = v, delete, .Used(k))
+//   return-false             universal quantifier (if ... { return false })
+//   return                   any other return inside the loop
+//   call:<f>                 calls a function for each entry
+func classifyRange(p *packages.Package, fd *ast.FuncDecl, loop *ast.RangeStmt) string {
+	feats := map[string]bool{}
+	slices := map[string]bool{}
+	var walk func(n ast.Node)
+	walk = func(n ast.Node) {
+		ast.Inspect(n, func(n ast.Node) bool {
+			switch x := n.(type) {
+			case *ast.ReturnStmt:
+				if len(x.Results) == 1 && exprString(p, x.Results[0]) == "false" {
+					feats["return-false"] = true
+				} else {
+					feats["return"] = true
+				}
+			case *ast.AssignStmt:
+				for i, lhs := range x.Lhs {
+					if _, ok := lhs.(*ast.IndexExpr); ok {
+						feats["insert"] = true
+					}
+					if i < len(x.Rhs) {
+						if call, ok := x.Rhs[i].(*ast.CallExpr); ok && exprString(p, call.Fun) == "append" {
+							slices[exprString(p, lhs)] = true
+						}
+					}
+				}
+			case *ast.ExprStmt:
+				if call, ok := x.X.(*ast.CallExpr); ok {
+					f := exprString(p, call.Fun)
+					switch {
+					case f == "delete" || strings.HasSuffix(f, ".Used"):
+						feats["insert"] = true
+					default:
+						feats["call:"+f] = true
+					}
+				}
+			}
+			return true
+		})
+	}
+	walk(loop.Body)
+	for sl := range slices {
+		sorted := false
+		ast.Inspect(fd.Body, func(n ast.Node) bool {
+			if call, ok := n.(*ast.CallExpr); ok && call.Pos() > loop.End() {
+				f := exprString(p, call.Fun)
+				if (f == "sort.Strings" || f == "sort.Slice" || f == "sort.SliceStable") && len(call.Args) > 0 && exprString(p, call.Args[0]) == sl {
+					sorted = true
+				}
+			}
+			return true
+		})
+		if sorted {
+			feats["append:"+sl+",sorted"] = true
+		} else {
+			feats["append:"+sl] = true
+		}
+	}
+	var fs []string
+	for f := range feats {
+		fs = append(fs, f)
+	}
+	sort.Strings(fs)
+	if len(fs) == 0 {
+		return "empty"
+	}
+	return strings.Join(fs, "+")
 }
